@@ -201,6 +201,9 @@ SHADOW_SETS = [
     {"b": "x", "n": "y"},
     {"a": "x"},
     {"b": "x"},
+    # arguments named like the helpers the library compiles while it re-computes a comprehension
+    {"xs": "assigned", "a": "read_assigned"},
+    {"a": "assigned", "d": "dict"},
 ]
 
 
